@@ -21,7 +21,11 @@ RULE = ("multi-threaded workloads (`probe --threads <spec>`): 16..64 threads, ea
         "spawns between them; every event carries the thread path, a per-thread and a global sequence number and the "
         "mode the rounding kernel actually read (hook). The monitor replays each thread's own history: every default() "
         "and every operation result must equal the oracle under the mode last set by that same thread, HalfEven for a "
-        "new thread whatever its parent set. Runs natively (dev + release), under Miri with different scheduler seeds "
+        "new thread whatever its parent set, and still the thread's own mode while the thread shuts down (a driver-side "
+        "thread-local destructor asks for default() and rounds twice at thread exit). Besides the big stress runs, hundreds "
+        "of tiny workloads run in FRESH processes (every sequence of up to 3 set_default calls in one thread; two-thread "
+        "duets A selects X / B selects Y, possibly redundantly / A rounds again / B selects Z) so that process-wide state "
+        "such as counters, flags or caches is explored from scratch. Runs natively (dev + release), under Miri with different scheduler seeds "
         "(data-race and UB detection, distinct interleavings) and under ThreadSanitizer (-Zbuild-std). Non-trivial = "
         "operation executed by a thread whose mode differs from the mode of the thread that ran immediately before it "
         "in the global order, or from HalfEven")
@@ -37,6 +41,7 @@ BATTERY = [
     "quant vv D125:2 D5:1", "quant vv D-101:2 u8:2",
     "divr vv D1:18 D1000000000000000000000:0 0", "divr vv D-1:18 D1000000000000000000000:0 0",
     "divr vv D3:0 D-4:0 1", "divr vv D1:0 D-4:0 2", "tof64 D1:1", "fromf64 4599075939470750515",
+    "round D1:18 -25", "round D-1:18 -25", "cround D-7:0 -39", "cround D3:2 -38",
     "fmt none - 1 D25:2", "fmt none - 0 D-15:1", "fmt plus 8 1 D-205:2", "fmt none - 1 D-21:2", "fmt zero 6 0 D26:1",
 ]
 OWNER = {"round": c05, "cround": c05, "divr": c04, "mulr": c04, "quant": c04, "mul": c02, "div": c03, "fmt": c11,
@@ -58,6 +63,9 @@ def battery_selftest():
         raise RuntimeError("C19 battery does not distinguish all rounding modes")
 
 
+EXIT_BATTERY = ["round D25:1 0", "divr vv D-1:0 D3:0 2"]       # executed by the driver's thread-exit probe
+SMALL = ["round D25:1 0", "round D-205:2 1", "divr vv D1:0 D8:0 2", "mul vv D-5:1 D1:18", "fmt none - 1 D-21:2",
+         "round D-1:18 -25", "divr vv D-1:0 D3:0 2", "div vv D-2:0 D3:0"]
 MIRI_BATTERY = ["round D25:1 0", "round D-205:2 1", "divr vv D1:0 D8:0 2", "mul vv D-5:1 D1:18",
                 "div vv D-2:0 D3:0", "fmt none - 1 D-21:2"]
 
@@ -152,6 +160,43 @@ def make_swarm_spec(rng, n_workers, n_watchers):
     return "\n".join(lines) + "\n", bats
 
 
+def _spec_text(bats, scripts, mains):
+    lines = []
+    for bid, reqs in bats.items():
+        for r in reqs:
+            lines.append("battery %s %s" % (bid, r))
+    for sid, steps in scripts.items():
+        lines.append("script %s %s" % (sid, " ".join(steps)))
+    lines.append("main " + " ".join(mains))
+    return "\n".join(lines) + "\n"
+
+
+def small_state_specs(rng, n_duets):
+    """Many tiny workloads, each run in a FRESH process (process-wide state such as counters, flags or caches
+    starts from scratch every time):
+      solo  - one thread, every sequence of up to three set_default calls over the 8 modes (584 sequences),
+              a battery and default() after each set;
+      duet  - thread A selects X and rounds, thread B (a little later) selects Y - possibly redundantly
+              RoundHalfEven - and rounds, A rounds again, B selects Z, A rounds again (sleeps order the steps);
+              all 512 (X, Y, Z) combinations in the thorough tier, a seeded sample in quick."""
+    bats = {"bs": SMALL}
+    specs = []
+    seqs = [[a] for a in MODES] + [[a, b] for a in MODES for b in MODES] + [[a, b, c] for a in MODES for b in MODES for c in MODES]
+    for seq in seqs:
+        steps = ["get"]
+        for m in seq:
+            steps += ["set:%s" % m, "get", "run:bs"]
+        specs.append(("solo-" + "-".join(x[5:] for x in seq), _spec_text(bats, {"s": steps}, ["s"]), bats))
+    combos = [(x, y, z) for x in MODES for y in MODES for z in MODES]
+    if n_duets < len(combos):
+        combos = rng.sample(combos, n_duets)
+    for x, y, z in combos:
+        a = ["get", "set:%s" % x, "run:bs", "sleep:3000", "run:bs", "get", "sleep:3000", "run:bs", "get"]
+        b = ["sleep:1500", "get", "set:%s" % y, "run:bs", "get", "sleep:3000", "set:%s" % z, "run:bs", "get"]
+        specs.append(("duet-%s-%s-%s" % (x[5:], y[5:], z[5:]), _spec_text(bats, {"a": a, "b": b}, ["a", "b"]), bats))
+    return specs
+
+
 def check_log(text, bats, tool):
     """Replay every thread's own history. Returns dict with counts / violations."""
     res = {"events": 0, "ops": 0, "sets": 0, "gets": 0, "threads": 0, "violations": [], "errors": [],
@@ -189,7 +234,8 @@ def check_log(text, bats, tool):
     events = []
     for path, evs in per_thread.items():
         evs.sort()
-        if [e[0] for e in evs] != list(range(len(evs))):
+        body = [e[0] for e in evs if e[0] < 1000000]
+        if body != list(range(len(body))):
             res["errors"].append("thread %s: local sequence numbers not contiguous" % path)
         for e in evs:
             events.append((e[1], path, e))
@@ -212,7 +258,7 @@ def check_log(text, bats, tool):
             res["errors"].append("unknown event kind %r" % kind)
             continue
         bid, idx, resp_text = rest.split(" ", 2)
-        req = bats[bid][int(idx)]
+        req = EXIT_BATTERY[int(idx)] if bid == "exit" else bats[bid][int(idx)]
         toks = req.split(" ")
         resp = E.Resp(resp_text)
         res["ops"] += 1
@@ -301,7 +347,49 @@ def main(tier, seed):
                 account(name, check_log(p.stdout, bats, name), spec)
         except subprocess.TimeoutExpired:
             errors.append("watchdog: %s" % name)
-    phase = {"native": round(time.time() - t0, 1)}
+    # 1b. small-state workloads, each in a fresh process
+    t_small = time.time()
+    binary = B.build("dev", ())
+    specs = small_state_specs(rng, 160 if tier == "quick" else 512)
+    if tier == "quick":
+        solos = [sp for sp in specs if sp[0].startswith("solo")]
+        duets = [sp for sp in specs if sp[0].startswith("duet")]
+        specs = solos[:72] + rng.sample(solos[72:], 120) + duets
+    small = {"runs": 0, "events": 0, "ops": 0, "violations": 0}
+
+    def run_small(sp):
+        name, text, bats_ = sp
+        spec_path = os.path.join(wdir, "small-%s.spec" % name)
+        open(spec_path, "w").write(text)
+        try:
+            p = subprocess.run([binary, "--threads", spec_path], stdout=subprocess.PIPE, stderr=subprocess.PIPE,
+                               text=True, timeout=120)
+        except subprocess.TimeoutExpired:
+            return name, None, spec_path, bats_
+        return name, p, spec_path, bats_
+    with concurrent.futures.ThreadPoolExecutor(E.NCPU) as ex:
+        for name, p, spec_path, bats_ in ex.map(run_small, specs):
+            if p is None or p.returncode != 0:
+                errors.append("%s failed: %s" % (name, "watchdog" if p is None else p.stderr[-200:]))
+                continue
+            res = check_log(p.stdout, bats_, name)
+            small["runs"] += 1
+            small["events"] += res["events"]
+            small["ops"] += res["ops"]
+            small["violations"] += len(res["violations"])
+            for k in ("events", "ops", "threads", "switches", "kernel_mode_reads"):
+                total[k] += res[k]
+            total["nontrivial"] += len(res["nontrivial"])
+            total["mode_sequences"] += len(res["mode_sequences"])
+            interleavings.add(res["interleaving"])
+            errors.extend(res["errors"])
+            for v in res["violations"][:3]:
+                v = dict(v)
+                v["run"] = name
+                v["spec"] = spec_path
+                viol.append(v)
+    phase_small = round(time.time() - t_small, 1)
+    phase = {"native": round(time.time() - t0, 1), "small_state": phase_small}
     # 2. Miri, different scheduler seeds
     n_seeds = 8 if tier == "quick" else 64
     cmd, env = B.miri_cmd(())
@@ -400,6 +488,7 @@ def main(tier, seed):
         "kernel_mode_reads_checked": total["kernel_mode_reads"],
         "distinct_interleavings_observed": len(interleavings),
         "runs": runs,
+        "small_state_runs": small,
         "tool_reports": tool_reports,
     }
     ev = {"property_id": ID, "tier": tier, "seed": seed, "level": "exploration", "coverage": cov,
